@@ -219,6 +219,9 @@ type vfProxy struct {
 	tlsOnce sync.Once
 	tlsSrv  *httptest.Server
 	srvLog  *vfLogBuf
+	// OnResp, when set (before any request is served), sees every request/response pair of the direct driver —
+	// including those issued inside Login/StartLogin
+	OnResp func(r *vfReq, resp *vfResp)
 }
 
 // vfMergeFlags: later flags override earlier single-valued ones with the same name; flags listed in multi are kept.
@@ -489,7 +492,11 @@ func (p *vfProxy) Do(r *vfReq) (resp *vfResp) {
 	if req == nil {
 		return &vfResp{Code: 400, Header: http.Header{}, Invalid: bad}
 	}
-	return p.serve(req, r.GiveUpAfter)
+	resp = p.serve(req, r.GiveUpAfter)
+	if p.OnResp != nil {
+		p.OnResp(r, resp)
+	}
+	return resp
 }
 
 func (p *vfProxy) serve(req *http.Request, giveUp time.Duration) (resp *vfResp) {
@@ -511,8 +518,11 @@ func (p *vfProxy) serve(req *http.Request, giveUp time.Duration) (resp *vfResp) 
 		if giveUp <= 0 {
 			giveUp = 60 * time.Second
 		}
-		ctx, cancel := context.WithTimeout(req.Context(), giveUp)
+		// as net/http does when the client's connection goes away: the context is CANCELLED (not "deadline exceeded")
+		ctx, cancel := context.WithCancel(req.Context())
 		defer cancel()
+		timer := time.AfterFunc(giveUp, cancel)
+		defer timer.Stop()
 		p.Handler.ServeHTTP(rw, req.WithContext(ctx))
 	}()
 	resp.Code = rw.Code
